@@ -853,3 +853,14 @@ Proof.
   specialize (Hb y Hy). rewrite forallb_forall in Hb. specialize (Hb y' Hy').
   rewrite Ek, skey_eqb_refl in Hb. cbn in Hb. apply scalar_eqb_eq. exact Hb.
 Qed.
+
+(* ... and it is also necessary: the executable test is exactly key_consistent (no false alarm from the test) *)
+Lemma key_consistent_b_complete f : key_consistent f -> key_consistent_b f = true.
+Proof.
+  intros Hk. unfold key_consistent_b. apply forallb_forall. intros y Hy. apply forallb_forall. intros y' Hy'.
+  unfold all_reads in Hy. apply in_flat_map in Hy. destruct Hy as (l & _ & Hl).
+  unfold all_writes in Hy'. apply in_flat_map in Hy'. destruct Hy' as (l' & _ & Hl').
+  destruct (skey_eqb (skey_of y') (skey_of y)) eqn:E; [|reflexivity]. cbn [negb orb].
+  apply skey_eqb_eq in E. apply scalar_eqb_eq.
+  apply (Hk l l' y y'); [apply sc_mem_In; exact Hl|apply sc_mem_In; exact Hl'|exact E].
+Qed.
